@@ -293,3 +293,85 @@ Definition tree_of (cx : context) (ps : pstate) (pos : nat) (d : doc) : list (op
 (** what [parse_content(LatexGeneralNodesParser())] returns for it *)
 Definition doc_result (cx : context) (d : doc) : res out :=
   Ok (ONode (Some (gen_nodelist 0 (fst (tree_of cx (walker_state cx) 0 d))))) (length (unparse d)).
+
+(** * Structure: a tree with positions and whitespace erased
+    (the projection of [harness/docast.py: struct]): positions zeroed,
+    characters normalised to their words joined by single spaces, macro /
+    comment post-space dropped, whitespace-only character nodes dropped from
+    node lists. *)
+Definition wstep (a : list str * str) (c : N) : list str * str :=
+  if is_space c then (match snd a with [] => fst a | cur => fst a ++ [rev cur] end, [])
+  else (fst a, c :: snd a).
+Definition wstate (p : str) : list str * str := fold_left wstep p ([], []).
+Definition wfinish (a : list str * str) : list str :=
+  match snd a with [] => fst a | cur => fst a ++ [rev cur] end.
+Definition words (p : str) : list str := wfinish (wstate p).         (* [p.split()] *)
+Definition norm (p : str) : str := join [32%N] (words p).            (* [' '.join(p.split())] *)
+
+Definition is_blank_node (x : node) : bool :=
+  match x with NChars _ _ _ c => match words c with [] => true | _ => false end | _ => false end.
+
+Fixpoint structure (n : node) {struct n} : node :=
+  let sl := fix sl (l : list (option node)) : list (option node) :=
+      match l with
+      | [] => []
+      | None :: r => None :: sl r
+      | Some x :: r => if is_blank_node x then sl r else Some (structure x) :: sl r
+      end in
+  let sa := fix sa (l : list (option node)) : list (option node) :=
+      match l with [] => [] | None :: r => None :: sa r | Some x :: r => Some (structure x) :: sa r end in
+  let sargs := fun (a : option pargs) => match a with None => None | Some (sp, l) => Some (sp, sa l) end in
+  let sb := fun (b : option node) => match b with None => None | Some x => Some (structure x) end in
+  match n with
+  | NChars _ _ m c => NChars 0 0 m (norm c)
+  | NComment _ _ m c _ => NComment 0 0 m c []
+  | NGroup _ _ m dl dr b => NGroup 0 0 m dl dr (sb b)
+  | NMacro _ _ m nm _ a => NMacro 0 0 m nm [] (sargs a)
+  | NEnv _ _ m nm a b => NEnv 0 0 m nm (sargs a) (sb b)
+  | NSpecials _ _ m c a => NSpecials 0 0 m c (sargs a)
+  | NMath _ _ m d dl dr b => NMath 0 0 m d dl dr (sb b)
+  | NList _ _ l => NList None None (sl l)
+  end.
+
+Definition structure_items : list (option node) -> list (option node) :=
+  fix sl (l : list (option node)) : list (option node) :=
+    match l with
+    | [] => []
+    | None :: r => None :: sl r
+    | Some x :: r => if is_blank_node x then sl r else Some (structure x) :: sl r
+    end.
+Definition structure_args : list (option node) -> list (option node) :=
+  fix sa (l : list (option node)) : list (option node) :=
+    match l with [] => [] | None :: r => None :: sa r | Some x :: r => Some (structure x) :: sa r end.
+Definition structure_res (x : res out) : option node :=
+  match x with Ok (ONode (Some n)) _ => Some (structure n) | _ => None end.
+
+(** * Whitespace variants: the same document with other amounts of
+    whitespace — every whitespace field is replaced by a whitespace run that is
+    empty exactly when the original is *)
+Definition wse (w w' : str) : Prop :=
+  forallb is_space w = true /\ forallb is_space w' = true /\ (w = [] <-> w' = []).
+
+Fixpoint wsv (i i' : item) {struct i} : Prop :=
+  let all2 := fix all2 (l l' : list item) {struct l} : Prop :=
+      match l, l' with
+      | [], [] => True
+      | x :: r, x' :: r' => wsv x x' /\ all2 r r'
+      | _, _ => False
+      end in
+  match i, i' with
+  | Text ws cs, Text ws' cs' => wse ws ws' /\ cs = cs'
+  | Grp ws b tr, Grp ws' b' tr' => wse ws ws' /\ wse tr tr' /\ all2 b b'
+  | Mac ws nm post a, Mac ws' nm' post' a' => wse ws ws' /\ nm = nm' /\ wse post post' /\ all2 a a'
+  | Math ws k b tr, Math ws' k' b' tr' => wse ws ws' /\ k = k' /\ wse tr tr' /\ all2 b b'
+  | _, _ => False
+  end.
+Definition wsv_items : list item -> list item -> Prop :=
+  fix all2 (l l' : list item) {struct l} : Prop :=
+    match l, l' with
+    | [], [] => True
+    | x :: r, x' :: r' => wsv x x' /\ all2 r r'
+    | _, _ => False
+    end.
+Definition ws_variant (d d' : doc) : Prop :=
+  wsv_items (d_items d) (d_items d') /\ wse (d_trail d) (d_trail d').
